@@ -469,6 +469,26 @@ def execute(case, se, out, trace):
             okk, msg = ob.snaps_equal(ob.path_snap(allsegs[hi + 1 :]), post, rel=0.0, skip_move_start=True)
             if not okk:
                 raise V("isolation", ["after-window"], "subpath(%d).reverse() changed a segment after the subpath: %s" % (i, msg))
+        # (g) the path's own parameterisation follows the reversal: point(t) of the very object (which may
+        # carry a length cache filled by an earlier observer) agrees with point(t) of a cache-free copy
+        scale_now = max(_scale(real), 1e-300)
+        fresh = _copy.copy(P)
+        for t in (0.15, 0.5, 0.85):
+            try:
+                want = fresh.point(t, error=1e-4 * scale_now)
+            except Exception:
+                out.count("skip:path-point-unavailable")
+                break
+            try:
+                got = P.point(t, error=1e-4 * scale_now)
+            except Exception as e:
+                raise V("parameterisation", ["raises", type(e).__name__, name], "after %s, point(%s) of the path raised %r while a fresh copy of it answers %r (stale cached lengths?)" % (name, t, e, ob.pt(want)))
+            if want is None or got is None:
+                continue
+            if not ob.close_val(ob.pt(got), ob.pt(want), 0.0, 0.03 * scale_now):
+                raise V("parameterisation", ["stale", name], "after %s, point(%s) of the path is %r but a fresh copy of the same path gives %r: the path object does not trace its own (reversed) geometry" % (name, t, ob.pt(got), ob.pt(want)))
+        else:
+            out.count("probe:path-point-checked")
         # (e) involution
         if last_rev is not None and last_rev[0] == handle:
             compare(canon_form(P, False), last_rev[1], V, name + "-twice", what="original")
